@@ -434,7 +434,7 @@ def check_config(res, spec, all_modes=True):
         res.sample({'spec': spec, 'extent': [float(v) for v in exp.ext], 'acceptable': [sorted(s) for s in exp.acc]})
 
     try:
-        reg = G.build(spec)
+        reg = G.build_routed(spec)       # every 4th spec (by hash) is reached by re-assignment
     except Exception as exc:
         res.violation(ID, 'build_failed', case, f'could not construct region: {type(exc).__name__}: {exc}')
         return
